@@ -254,6 +254,16 @@ def typename_program(rng, n):
         else:
             fns.append("fn tn%d(t: %s) -> int32 { %d }" % (i, ty, i))
             calls.append("    let _ = string_println(int32_to_string(tn%d(%s)));" % (i, val))
+        # the per-type runtime helpers (ref/ref_get/ref_set, array_get/array_set, vec_push/vec_get/vec_len) at this type:
+        # their Go names are built from the type as well
+        if rng.random() < 0.5:
+            k_ = rng.choice(["ref", "array", "vec"])
+            if k_ == "ref":
+                calls.append("    let hr%d = ref(%s); let _ = ref_set(hr%d, ref_get(hr%d));" % (i, v1, i, i))
+            elif k_ == "array":
+                calls.append("    let ha%d = [%s, %s]; let hb%d = array_set(ha%d, 0, array_get(ha%d, 1));" % (i, v1, v1, i, i, i))
+            else:
+                calls.append("    let hv%d: Vec[%s] = vec_new(); let hv%d = vec_push(hv%d, %s); let _ = (vec_len(hv%d), vec_get(hv%d, 0));" % (i, t1, i, i, v1, i, i))
     return head + "\n".join(fns) + "\nfn main() {\n" + "\n".join(calls) + "\n    ()\n}\n"
 
 
